@@ -32,6 +32,7 @@ type oidcWorld struct {
 	valid   map[string][]string
 	invalid []string
 	order   []string
+	key     *rsa.PrivateKey
 }
 
 func b64(b []byte) string { return base64.RawURLEncoding.EncodeToString(b) }
@@ -63,6 +64,7 @@ func newOidcWorld(addr string) (*oidcWorld, error) {
 	if err != nil {
 		return nil, err
 	}
+	w.key = key
 	mux := http.NewServeMux()
 	mux.HandleFunc("/.well-known/openid-configuration", func(rw http.ResponseWriter, r *http.Request) {
 		rw.Header().Set("Content-Type", "application/json")
@@ -100,10 +102,10 @@ func newOidcWorld(addr string) (*oidcWorld, error) {
 	add(signJWT(key, "k1", claims("alice", now+7200, w.issuer)), "alice", true)
 	add(signJWT(key, "k1", claims("bob", now+3600, w.issuer)), "bob", true)
 	add(signJWT(key, "k1", claims("carol", now+3600, w.issuer)), "carol", true)
-	add(signJWT(key, "k1", claims("alice", now-3600, w.issuer)), "", false)            // expired
-	add(signJWT(other, "k1", claims("alice", now+3600, w.issuer)), "", false)          // signed by another key
+	add(signJWT(key, "k1", claims("alice", now-3600, w.issuer)), "", false)               // expired
+	add(signJWT(other, "k1", claims("alice", now+3600, w.issuer)), "", false)             // signed by another key
 	add(signJWT(key, "k1", claims("alice", now+3600, "http://127.0.4.201:1")), "", false) // other issuer
-	{ // alg none
+	{                                                                                     // alg none
 		h, _ := json.Marshal(map[string]string{"alg": "none", "typ": "JWT"})
 		p, _ := json.Marshal(claims("alice", now+3600, w.issuer))
 		add(b64(h)+"."+b64(p)+".", "", false)
@@ -146,4 +148,9 @@ func (w *oidcWorld) coqDefs() string {
 		fmt.Fprintf(&b, "Definition %s : bytes := %s.\n", w.names[t], hx.HxS(t))
 	}
 	return b.String()
+}
+
+// mint signs a fresh token for sub that expires at exp (unix seconds) with the issuer's current key.
+func (w *oidcWorld) mint(sub string, exp int64) string {
+	return signJWT(w.key, "k1", map[string]any{"iss": w.issuer, "sub": sub, "aud": "frps", "exp": exp, "iat": time.Now().Unix(), "jti": fmt.Sprint(time.Now().UnixNano())})
 }
